@@ -248,7 +248,7 @@ func c33RootDiagram() *d2target.Diagram {
 
 var reAnim = regexp.MustCompile(`<g style="animation: (\S+) (-?\d+)ms infinite"([^>]*)>`)
 
-const bruteLimit = 3_000_000 // boards × cells evaluated one by one below this, interval arithmetic (exactly equivalent) above
+const bruteLimit = 400_000 // boards × cells evaluated one by one below this; interval arithmetic over the same cells (exactly equivalent) always
 
 // input: "n=<boards> T=<interval ms> boards=dummy|steps"
 func c33Oracle(in string) eng.Res {
@@ -466,49 +466,56 @@ func init() {
 		Assumptions: []string{
 			"CSS animation semantics are the harness's own model: percentages map linearly to time, a later keyframe with the same offset overrides an earlier one, opacity between two stops of equal value is that value and between 0 and 1 otherwise (any easing)",
 			"instants are sampled at j+0.5 ms for every integer j of the cycle; Wrap prints percentages with 6 decimals, which moves a breakpoint by at most 5e-9·n·T ms (< 0.15 ms for the largest cycle enumerated, 400×60000 ms), so no sample is within rounding distance of a breakpoint",
-			"for boards×cells > 3·10^6 the per-instant loop is replaced by interval arithmetic over the same instants (both are run and compared below that size)",
+			"the verdict over all instants is computed by interval arithmetic on the piecewise-constant opacity functions (exactly the set of sampled instants); for boards×instants <= 4·10^5 the literal per-instant loop is run as well and must agree",
 			"T=1 leaves no instant outside a transition; only the percentage clauses are checked there",
 			"the clause `symbolically for all positive values` of the quantifier is not decided; only the enumerated finite ranges are",
 		},
-		QuickBudget: 100 * time.Second, ThoroughBudget: 25 * time.Minute,
+		QuickBudget: 170 * time.Second, ThoroughBudget: 25 * time.Minute,
 		Oracles: map[string]eng.Oracle{"wrap": c33Oracle},
 		Run: func(w *eng.W) {
-			w.Phase("n<=24 x T<=400", func() {
-				for n := 1; n <= 24; n++ {
-					for T := 1; T <= w.Pick(400, 1200); T++ {
-						w.Eval("wrap", fmt.Sprintf("n=%d T=%d boards=dummy", n, T))
-					}
-				}
-			})
-			w.Phase("n<=150 x listed intervals", func() {
-				for n := 1; n <= 150; n++ {
-					for _, T := range c33Intervals {
-						w.Eval("wrap", fmt.Sprintf("n=%d T=%d boards=dummy", n, T))
-					}
-				}
-			})
-			w.Phase("real step boards", func() {
-				for n := 1; n <= w.Pick(6, 12); n++ {
-					for _, T := range []int{2, 3, 100, 1000} {
-						w.Eval("wrap", fmt.Sprintf("n=%d T=%d boards=steps", n, T))
-					}
-				}
-			})
-			if w.Thorough() {
-				w.Phase("n<=150 x T<=120", func() {
-					for n := 25; n <= 150; n++ {
-						for T := 1; T <= 120; T++ {
+			// Phases are kept small (a few hundred Wrap calls, ~0.2 s each because Wrap re-subsets the fonts every
+			// time) so that the engine's per-phase deadline check bounds the run.
+			dense := func(nLo, nHi, tHi int) {
+				w.Phase(fmt.Sprintf("n=%d..%d x T=1..%d", nLo, nHi, tHi), func() {
+					for n := nLo; n <= nHi; n++ {
+						for T := 1; T <= tHi; T++ {
 							w.Eval("wrap", fmt.Sprintf("n=%d T=%d boards=dummy", n, T))
 						}
 					}
 				})
-				w.Phase("n in 151..400 x listed intervals", func() {
-					for n := 151; n <= 400; n++ {
+			}
+			listed := func(nLo, nHi int) {
+				w.Phase(fmt.Sprintf("n=%d..%d x listed intervals", nLo, nHi), func() {
+					for n := nLo; n <= nHi; n++ {
 						for _, T := range c33Intervals {
 							w.Eval("wrap", fmt.Sprintf("n=%d T=%d boards=dummy", n, T))
 						}
 					}
 				})
+			}
+			w.Phase("real step boards", func() {
+				for n := 1; n <= w.Pick(5, 12); n++ {
+					for _, T := range []int{2, 3, 100, 1000} {
+						w.Eval("wrap", fmt.Sprintf("n=%d T=%d boards=steps", n, T))
+					}
+				}
+			})
+			for n := 1; n <= 8; n += 2 {
+				dense(n, n+1, 150)
+			}
+			for n := 1; n <= 150; n += 25 {
+				listed(n, n+24)
+			}
+			if w.Thorough() {
+				for n := 1; n <= 24; n += 2 {
+					dense(n, n+1, 1200)
+				}
+				for n := 25; n <= 150; n += 6 {
+					dense(n, n+5, 120)
+				}
+				for n := 151; n <= 400; n += 25 {
+					listed(n, n+24)
+				}
 			}
 		},
 	})
